@@ -142,7 +142,12 @@ def run_unit(unit, repo, outdir):
         tagged = [ob_by_line[l] for l in b['lines'] if l in ob_by_line]
         # explicit (non-implicit) tags win; the failing clause is the one labelled in the block
         expl = [o for o in tagged if not o.get('implicit')]
+        impl_ = [o for o in tagged if o.get('implicit')]
         ob = (expl or tagged or [None])[0]
+        if ob is not None and f is not None and not (f['gen_start'] <= ob['gen_line'] <= f['gen_end']):
+            # a tagged requires of a shim / callee failed at a call site inside f: name the call site
+            site = impl_[0]['id'] if impl_ else '%s@line%d' % (f['name'], prim - f['body_start'])
+            ob = {'id': '%s<-%s' % (ob['id'], site), 'props': sorted(set(ob['props']) | set(impl_[0]['props'] if impl_ else []))}
         if ob is None and f is not None:
             ob = {'id': '%s.%s@line%d' % (f['name'], re.sub(r'\W+', '_', msg)[:40], prim - f['body_start']),
                   'props': sorted(set(f['props'] + ['C09'])) if 'overflow' in msg or 'underflow' in msg else f['props']}
@@ -206,10 +211,10 @@ def scan_trusted(paths):
                 for j in range(i, min(i + 6, len(lines))):
                     mm = re.search(r'\bfn (\w+)', lines[j])
                     if mm:
-                        found.append('%s: external_body fn %s' % (os.path.basename(p), mm.group(1)))
+                        found.append('external_body fn %s' % mm.group(1))
                         break
             elif m.group(2):
-                found.append('%s: assume_specification %s' % (os.path.basename(p), m.group(2)))
+                found.append('assume_specification %s' % m.group(2))
             else:
                 found.append('%s:%d: %s' % (os.path.basename(p), i + 1, m.group(0)))
     return found
